@@ -51,6 +51,27 @@ is the bit-serial CRC-32C (reflected polynomial 0x82F63B78, init and final xor 0
 theorem C16_crc (bs : Bytes) (x : Nat) : Model.verifyCRC32C bs x = (x == Spec.crc32c bs) :=
   verifyCRC32C_eq bs x
 
+/-- Detection.  Whatever the image: if the verdict is "valid", then after any change confined to one of the covered
+bytes (in particular after every single-bit flip of the body) the verdict is "invalid" … -/
+theorem C16_crc_detects (pre post : Bytes) (x y : UInt8) (crc : Nat)
+    (hv : Model.verifyCRC32C (pre ++ x :: post) crc = true) (hxy : x ≠ y) :
+    Model.verifyCRC32C (pre ++ y :: post) crc = false := by
+  rw [C16_crc] at hv ⊢
+  have h1 : crc = Spec.crc32c (pre ++ x :: post) := by simpa using hv
+  have h2 := crc32c_byte_change pre post x y hxy
+  simp only [beq_eq_false_iff_ne, ne_eq]
+  rw [h1]; exact h2
+
+/-- … and so it is after any change of the stored crc. -/
+theorem C16_crc_detects_stored (bs : Bytes) (crc crc' : Nat) (hv : Model.verifyCRC32C bs crc = true) (h : crc' ≠ crc) :
+    Model.verifyCRC32C bs crc' = false := by
+  rw [C16_crc] at hv ⊢
+  have h1 : crc = Spec.crc32c bs := by simpa using hv
+  simp only [beq_eq_false_iff_ne, ne_eq]
+  rw [← h1]; exact h
+
+example : Model.verifyCRC32C ([1, 2] ++ 3 :: [4]) (Spec.crc32c [1, 2, 3, 4]) = true := by decide +kernel
+
 /-- anchors of the bit-serial definition: the standard check string, and the control file a real PostgreSQL 10
 server wrote (its stored CRC at offset 288 is 0xDB3E2024) -/
 example : Spec.crc32c "123456789".toUTF8.toList = 0xE3069283 := by decide +kernel
